@@ -1,6 +1,7 @@
 package main
 
 import (
+	"verif/harness/internal/c04"
 	"verif/harness/internal/c03"
 	"verif/harness/internal/c15"
 	"verif/harness/internal/c02"
@@ -16,6 +17,7 @@ import (
 )
 
 func init() {
+	checks["C04"] = c04.Run
 	checks["C03"] = c03.Run
 	checks["C15"] = c15.Run
 	checks["C02"] = c02.Run
